@@ -227,6 +227,9 @@ def order_key() -> str:
                 and isinstance(n.value.args[0].args[0], ast.Call) and dotted(n.value.args[0].args[0].func) == 'map'
                 and len(n.value.args[0].args[0].args) == 2 and dotted(n.value.args[0].args[0].args[0]) == 'MutatorConfig.parse')
 
+    def is_reselect_loop(n):           # while ...: ... select_background_variant_stats(conn, ctx) ... (the context widened until closed)
+        return isinstance(n, ast.While) and any(isinstance(m, ast.Call) and _names(m.func) == 'select_background_variant_stats' for m in ast.walk(n))
+
     def is_sorted_sgrna(n):            # sorted(self.sgrna_ids)
         return (isinstance(n, ast.Call) and _names(n.func) == 'sorted' and len(n.args) == 1 and not n.keywords
                 and isinstance(n.args[0], ast.Attribute) and n.args[0].attr == 'sgrna_ids')
@@ -255,6 +258,7 @@ def order_key() -> str:
             f'Definition sgrna_concat_grouped : bool := {b(gc_group)}.\n'
             f"Definition parse_mutators_sorted_set : bool := {b(has_call('loaders/base_targeton_config.py', 'parse_mutators', is_sorted_set_parse_list))}.\n"
             f"Definition parse_mutators_dedups_parsed : bool := {b(has_call('loaders/base_targeton_config.py', 'parse_mutators', is_dedup_parsed))}.\n"
+            f"Definition gpo_ctx_reselects_in_loop : bool := {b(has_call('sge_proc.py', 'get_gpo_ctx', is_reselect_loop))}.\n"
             f"Definition parse_list_strips : bool := {b(has_call('loaders/utils.py', 'parse_list', is_parse_list_strip))}.\n"
             f"Definition targeton_name_sorted_ids : bool := {b(has_call('loaders/targeton_config.py', 'name', is_sorted_sgrna))}.\n"
             f"Definition unique_names_sorted : bool := {b(has_call('meta_table.py', 'to_csv', is_names_sort))}.\n"
